@@ -30,6 +30,8 @@ use cairo_lang_utils::unordered_hash_set::UnorderedHashSet;
 use cairo_lang_utils::{CloneableDatabase, Intern};
 use rayon::iter::{IntoParallelIterator, IntoParallelRefIterator, ParallelIterator};
 use salsa::Database;
+#[cfg(cairo_verif)]
+use cairo_lang_utils::verif_par as rayon;
 
 use crate::db::RootDatabase;
 use crate::diagnostics::{DiagnosticsError, DiagnosticsReporter};
